@@ -350,14 +350,18 @@ def k8_norm(sr, drv, G, strings: list[str]) -> None:
     g = G.Glob('x', flags=G._PATHLIB)
     lines, real = [], []
     posix_re = G._RE_PATHLIB_DOT_NORM[0]
+    win_re = G._RE_WIN_PATHLIB_DOT_NORM[0]
     for s in strings:
-        lines.append(f'pl_norm 1 0 {common.enc(s)}')
+        # the live instance against the model configured as the code is (`c` = codeReWin: the POSIX
+        # regex on this host since the D16 repair; it was the Windows one on every host)
+        lines.append(f'pl_norm c 0 {common.enc(s)}')
         real.append('ok ' + common.enc(g._pathlib_norm(s)))
-        # the POSIX regex (what a repaired Glob would hold): same tail rule
-        t = posix_re.sub('', s)
-        t = t[:-1] if len(t) > 1 and t[-1:] in ('/',) else t
-        lines.append(f'pl_norm 0 0 {common.enc(s)}')
-        real.append('ok ' + common.enc(t))
+        # each regex on its own (same tail rule, `seps = ('/',)`)
+        for code, rx in ((0, posix_re), (1, win_re)):
+            t = rx.sub('', s)
+            t = t[:-1] if len(t) > 1 and t[-1:] in ('/',) else t
+            lines.append(f'pl_norm {code} 0 {common.enc(s)}')
+            real.append('ok ' + common.enc(t))
     outs = drv.ask_many(lines)
     changed = 0
     for ln, r, o in zip(lines, real, outs):
@@ -389,7 +393,7 @@ def k8_format(sr, drv, G, R, n: int, tmp: str) -> None:
             if cands and R.random() < 0.3:
                 s = R.choice(cands)[0]
             cands.append((s, R.random() < 0.5, R.random() < 0.3))
-        hdr = f'pl_fmt {int(g.nounique)} {int(g.case_sensitive)} {int(g.pathlib)} {int(g.mark)} 1 0'
+        hdr = f'pl_fmt {int(g.nounique)} {int(g.case_sensitive)} {int(g.pathlib)} {int(g.mark)} c 0'
         lines.append(hdr + ''.join(f' {common.enc(s)} {int(d)} {int(o)}' for s, d, o in cands))
         out = []
         for s, d, o in cands:
@@ -574,11 +578,12 @@ def dedup_paths(xs: list) -> list:
     return out
 
 
-def model_format(drv, names: list[str], re_win: bool, nounique: bool) -> list[str]:
-    """the Lean `formatPaths` (pathlib key) over an already formatted candidate stream"""
+def model_format(drv, names: list[str], nounique: bool) -> list[str]:
+    """the Lean `formatPaths` (pathlib key, the regex the code's instance holds: `c`) over an already
+    formatted candidate stream"""
     if not names:
         return []
-    o = drv.ask(f'pl_fmt {int(nounique)} 1 1 0 {int(re_win)} 0' + ''.join(f' {common.enc(s)} 0 0' for s in names))
+    o = drv.ask(f'pl_fmt {int(nounique)} 1 1 0 c 0' + ''.join(f' {common.enc(s)} 0 0' for s in names))
     f = o.split(' ')
     assert f[0] == 'ok', o
     return [common.dec(x) for x in f[1:]]
